@@ -51,6 +51,27 @@ func (e *Engine) queueLockDiscipline(r *Report, rule string) {
 		}
 		if first == "call(sync.(*Mutex).Lock)(&p0.mux)" && def == "defer call(sync.(*Mutex).Unlock)(&p0.mux)" {
 			locked[fn] = true
+			// ... and nothing of the queue's state is read before it: a head pointer fetched ahead of the lock is stale
+			// by the time the function owns the queue
+			var lockIn ssa.Instruction
+			for _, in := range fn.Blocks[0].Instrs {
+				if c, ok := in.(*ssa.Call); ok && lockIn == nil {
+					lockIn = c
+				}
+			}
+			early := ""
+			for _, in := range fn.Blocks[0].Instrs {
+				if in == lockIn {
+					break
+				}
+				if fa, ok := in.(*ssa.FieldAddr); ok {
+					if f := fieldVar(fa.X, fa.Field); f != nil && stateFields[f.Name()] {
+						early = f.Name()
+					}
+				}
+			}
+			r.Check(early == "", rule, e.ShortName(fn)+": no queue state is touched before the lock is held", e.Pos(fn.Pos()),
+				"q."+early+" is read before q.mux is taken: with two overlapping calls the second works from a stale value (a group is served twice in a row, or a lower-priority file is handed out while a higher-priority group is ready)", 1)
 		}
 	}
 	// fix-point: private functions called only from locked functions
